@@ -44,87 +44,12 @@
 #include <iv_event_raw.h>
 #include <iv_thread.h>
 #include <iv_work.h>
-#include "iv_private.h"
 #include "vk.h"
 #include "mt.h"
 
-#define NTHR	8
-#define NOBJ	8
-#define MAXSCR	8
-#define MAXACT	24
+#include "ivmt.h"
 
-static int first_seg = 1;
-
-void vk_trace(const char *fmt, ...)
-{
-	va_list ap;
-	static int nseg;
-
-	if (++nseg > 6000) {
-		fputs(" | OVERFLOW", stdout);
-		fflush(stdout);
-		_exit(3);
-	}
-	if (!first_seg)
-		fputs(" | ", stdout);
-	first_seg = 0;
-	printf("%d:", mt_self());
-	va_start(ap, fmt);
-	vprintf(fmt, ap);
-	va_end(ap);
-	fflush(stdout);
-}
-
-void vk_end(const char *why)
-{
-	vk_trace("%s", why);
-	fflush(stdout);
-	_exit(0);
-}
-
-void vk_before_wait(int nwait)
-{
-	(void)nwait;
-}
-
-int vk_rotation(int nwait)
-{
-	(void)nwait;
-	return 0;
-}
-
-static char backend[8] = "et";
-
-struct script {
-	int	nlists;
-	int	nact[MAXSCR];
-	char	*act[MAXSCR][MAXACT];
-	int	invocations;
-};
-
-struct cookie {
-	int	thr;
-	char	kind;
-	int	id;
-};
-
-struct tctx {
-	int			kind;		/* 0 unused, 1 loop, 2 plain */
-	struct script		body;		/* L: set-up; P: the whole program */
-	struct script		hs[128][NOBJ];	/* by key letter and object */
-	struct iv_state		*st;
-	struct iv_timer		*tm[NOBJ];
-	struct iv_task		*tk[NOBJ];
-	struct iv_event		*ev[NOBJ];
-	struct iv_event_raw	*rw[NOBJ];
-	struct cookie		ctm[NOBJ], ctk[NOBJ], cev[NOBJ], crw[NOBJ], cwk[NOBJ], cpl[NOBJ];
-	volatile int		ev_reg[NOBJ], rw_reg[NOBJ];
-	struct iv_work_pool	pool[NOBJ];
-	int			pool_live[NOBJ];
-	struct iv_work_item	item[NOBJ];
-};
-
-static struct tctx tc[NTHR];
+struct tctx tc[NTHR];
 
 int vk_is_main_pollfds(const void *pfds)
 {
@@ -150,7 +75,6 @@ int ivmt_classify_lock(void *addr, char *buf, size_t len)
 	return 0;
 }
 
-static void run_script(struct tctx *c, struct script *s);
 
 static struct tctx *me(void)
 {
@@ -256,7 +180,7 @@ static void helper_thread(void *cookie)
 	script_ctx = saved;
 }
 
-static int num(const char *s, const char **end)
+int num(const char *s, const char **end)
 {
 	int v = 0;
 
@@ -267,7 +191,7 @@ static int num(const char *s, const char **end)
 	return v;
 }
 
-static int obj(int v)
+int obj(int v)
 {
 	if (v < 0 || v >= NOBJ) {
 		fprintf(stderr, "ivmt: bad object index %d\n", v);
@@ -276,10 +200,32 @@ static int obj(int v)
 	return v;
 }
 
-static void do_action(struct tctx *c, const char *a)
+__attribute__((weak)) int ivmt_ext_action(struct tctx *c, const char *a)
+{
+	(void)c;
+	(void)a;
+	return 0;
+}
+
+__attribute__((weak)) void ivmt_ext_loop_init(struct tctx *c, int k)
+{
+	(void)c;
+	(void)k;
+}
+
+__attribute__((weak)) void ivmt_ext_loop_finish(struct tctx *c, int k)
+{
+	(void)c;
+	(void)k;
+}
+
+void do_action(struct tctx *c, const char *a)
 {
 	const char *p;
 	int j = (a[0] && a[1]) ? num(a + 2, &p) : 0;
+
+	if (ivmt_ext_action(c, a))
+		return;
 
 	switch (a[0]) {
 	case 'y':
@@ -443,7 +389,7 @@ static void do_action(struct tctx *c, const char *a)
 	}
 }
 
-static void run_script(struct tctx *c, struct script *s)
+void run_script(struct tctx *c, struct script *s)
 {
 	int k, i;
 
@@ -515,6 +461,7 @@ static void loop_body(int k)
 		c->item[i].work = work_fn;
 		c->item[i].completion = work_completion;
 	}
+	ivmt_ext_loop_init(c, k);
 	run_script(c, &c->body);
 }
 
@@ -524,6 +471,7 @@ static void loop_finish(int k)
 	int i;
 
 	vk_trace("E q=%d n=%d", c->st->quit, c->st->numobjs);
+	ivmt_ext_loop_finish(c, k);
 	for (i = 0; i < NOBJ; i++) {
 		char tok[16];
 		static const char *kinds[] = { "tu", "ku", "eu", "ru", "wp" };
